@@ -316,7 +316,11 @@ def _scalar_form(t, o):
     if t == ('var', o):
         return (1, 1)
     if t[0] == 'call' and t[1] in (('attr', ('var', 'jnp'), 'asarray'), ('attr', ('var', 'jnp'), 'array'), ('attr', ('var', 'np'), 'asarray')) and len(t[2]) >= 1:
+        if len(t[2]) > 1 or any(k == 'dtype' for k, _ in t[3]):
+            return ('cast', t)  # the scalar is converted to a fixed dtype: lossy for scalars that dtype cannot represent
         return _scalar_form(t[2][0], o)
+    if t[0] == 'call' and t[1][0] == 'attr' and t[1][2] == 'astype':
+        return ('cast', t)
     if t[0] == 'const':
         try:
             return (float(eval(t[1], {})), 0)  # constant literal only
@@ -324,6 +328,8 @@ def _scalar_form(t, o):
             return None
     if t[0] == 'unop' and t[1] == 'neg':
         inner = _scalar_form(t[2], o)
+        if inner is not None and inner[0] == 'cast':
+            return inner
         return None if inner is None else (-inner[0], inner[1])
     if t[0] == 'unop' and t[1] == 'pos':
         return _scalar_form(t[2], o)
@@ -331,6 +337,8 @@ def _scalar_form(t, o):
         a, b = _scalar_form(t[2], o), _scalar_form(t[3], o)
         if a is None or b is None:
             return None
+        if a[0] == 'cast' or b[0] == 'cast':
+            return a if a[0] == 'cast' else b
         if t[1] == '*':
             return (a[0] * b[0], a[1] + b[1])
         if b[0] == 0:
@@ -386,6 +394,9 @@ def _check_scalar(ck, world, table, cls, name, fn, homothety) -> None:
             struct_ok = len(hargs) > 1 and hargs[1] == ('OUT', ('var', s))
         else:
             ck.incomplete('S4', fn, f'unrecognised scalar form: {show(rt)}', instance=name)
+            continue
+        if form is not None and form[0] == 'cast':
+            ck.bad('S4', fn, f'{cls.name}.{name} converts the scalar to a fixed dtype ({show(form[1])[:60]}) before building the scalar operator: a factor that dtype cannot represent (0.5 on an integer operator, a complex factor on a real one) is silently altered, so k*A is not the scalar multiple', instance=f'{name} value')
             continue
         ck.expect('S4', form == want[name], fn, f'scalar factor is {"k" if want[name] == (1.0, 1) else "1/k" if want[name] == (1.0, -1) else "-1"}',
                   f'{cls.name}.{name} multiplies by the wrong scalar: got coefficient/exponent {form}, expected {want[name]}', instance=f'{name} value')
